@@ -1,6 +1,8 @@
 import Fabio.Driver.Proto
 import Fabio.Model.C07
 import Fabio.Model.C07Spec
+import Fabio.Model.ServeHTTP
+import Fabio.Model.C12Parse
 namespace Fabio.Driver.C07
 open Lean Fabio.Driver Fabio.Model.C07 Fabio.Model.C07Spec
 
@@ -282,6 +284,105 @@ def escapeH : Handler := fun inp impl => do
     return ({ model := m, agree := m == ci, spec := spec, nontrivial := b ≠ [],
               tag := if b = [] then "esc-norawpath" else if used then "esc-rawpath-used" else "esc-rawpath-rejected" } : Verdict).toJson
 
+/-! ### c07.serve: the unified model of `ServeHTTP` -/
+
+open Fabio.Model in
+def serveH : Handler := fun inp impl => do
+  let routes ← arr inp "routes"
+  let decoded ← routes.toList.mapM fun (rj : Json) => do
+    let host ← str rj "host"
+    let path ← str rj "path"
+    let dst ← str rj "dst"
+    let u := (rj.getObjVal? "u").toOption.getD Json.null
+    let us ← bytes u "scheme"; let uh ← bytes u "host"; let up ← bytes u "path"; let ur ← bytes u "rawpath"; let uq ← bytes u "query"
+    let opts ← pairs rj "opts"
+    pure (host, path, dst, ({ scheme := us, host := uh, path := up, rawPath := ur, rawQuery := uq } : C13.URL), opts)
+  let defs : List Route.RouteDef := decoded.zipIdx.map fun ((host, path, dst, _, opts), i) =>
+    { cmd := .add, service := ("svc" ++ toString i).toList, src := (host ++ path).toList, dst := dst.toList,
+      opts := opts.map fun kv => (kv.1.toList, kv.2.toList) }
+  let env : Route.Env := { normURL := fun s => some s, globOK := fun _ => true }
+  let table ← match Route.newTable env defs with
+    | .ok t => pure t
+    | .error _ => throw "the model's newTable rejects the routes"
+  let status ← int inp "noroute"
+  let html ← str inp "html"
+  let secrets ← pairs inp "secrets"
+  let method ← str inp "method"
+  let host ← str inp "host"
+  let client ← bytes inp "path"
+  let hasq ← bool inp "hasq"
+  let query ← bytes inp "query"
+  let hdr0 ← pairs inp "hdr"
+  let ws ← bool inp "ws"
+  let cred ← arr inp "cred"
+  let credOpt : Option (List Char × List Char) := match cred.toList with
+    | [Json.str u, Json.str p] => some (u.toList, p.toList)
+    | _ => none
+  let wire : List (List Char × Option (List Char)) :=
+    (hdr0.map fun kv => (kv.1.toList, some kv.2.toList)) ++
+    (if credOpt.isSome then [("Authorization".toList, some "Basic".toList)] else []) ++
+    (if ws then [("Upgrade".toList, some "websocket".toList), ("Connection".toList, some "Upgrade".toList)] else [])
+  let cfg : ServeHTTP.Cfg :=
+    { lookup := { globMatch := C03.globLib, pathMatch := fun uri p => p.isPrefixOf uri,
+                  pick := fun r => match r.targets with
+                    | x :: _ => x
+                    | [] => { service := [], tags := [], opts := [], url := [], fixedWeight := 0 } },
+      parsers := C12.Parse.goParsers,
+      parseURL := fun s => ((decoded.find? fun d => d.2.2.1.toList == s).map (·.2.2.2.1)).getD {},
+      noRouteStatus := status, noRouteHTML := html,
+      authSchemes := [("basic".toList, secrets.map fun kv => (kv.1.toList, kv.2.toList))] }
+  let g (k : String) : Json := (impl.getObjVal? k).toOption.getD Json.null
+  let iStatus := (impl.getObjValAs? Int "status").toOption.getD (-1)
+  let iHits := (impl.getObjValAs? Int "hits").toOption.getD (-1)
+  let up := g "up"
+  let iCls := if iHits == 1 then "forward" else if iStatus == 403 then "403" else if iStatus == 401 then "401"
+    else if 300 ≤ iStatus && iStatus ≤ 399 then "redirect" else if iStatus == 500 then "500"
+    else if iStatus == 400 then "bad-request" else "noroute"
+  let canonImpl : Json :=
+    if isPanic impl then Json.mkObj [("panic", true)] else
+    Json.mkObj [("cls", iCls), ("status", iStatus),
+      ("location", if iCls == "redirect" then g "location" else Json.null),
+      ("body", if iCls == "noroute" then g "body" else Json.null),
+      ("up", if iCls == "forward" then
+          Json.mkObj [("method", (up.getObjVal? "method").toOption.getD Json.null),
+                      ("uri", (up.getObjVal? "uri").toOption.getD Json.null),
+                      ("host", (up.getObjVal? "host").toOption.getD Json.null),
+                      ("fwd", g "fwd")]
+        else Json.null)]
+  let spec := (iHits == 1) == (iStatus == 200 || iStatus == 101) && iHits ≤ 1
+  match C07.setPath client with
+  | none =>
+    let m := Json.mkObj [("cls", "bad-request"), ("status", (400 : Int)), ("location", Json.null), ("body", Json.null), ("up", Json.null)]
+    return ({ model := m, agree := m == canonImpl, spec := spec, nontrivial := false, tag := "bad-request" } : Verdict).toJson
+  | some (path, rawPath) =>
+    let r : ServeHTTP.Request :=
+      { method := method, url := { path := path, rawPath := rawPath, rawQuery := query, forceQuery := hasq && query.isEmpty },
+        host := host.toList, headers := C08.ofWire wire, remoteAddr := "127.0.0.1:40000".toList, basicAuth := credOpt }
+    let out := ServeHTTP.serveHTTP cfg table r
+    let nul := Json.null
+    let m : Json := match out with
+      | .noRoute s page =>
+        let (_, final, body) := renderNoRoute method s page
+        Json.mkObj [("cls", "noroute"), ("status", final), ("location", nul), ("body", body), ("up", nul)]
+      | .forbidden => Json.mkObj [("cls", "403"), ("status", (403 : Int)), ("location", nul), ("body", nul), ("up", nul)]
+      | .unauthorized => Json.mkObj [("cls", "401"), ("status", (401 : Int)), ("location", nul), ("body", nul), ("up", nul)]
+      | .redirect c l => Json.mkObj [("cls", "redirect"), ("status", c), ("location", jb l), ("body", nul), ("up", nul)]
+      | .serverError => Json.mkObj [("cls", "500"), ("status", (500 : Int)), ("location", nul), ("body", nul), ("up", nul)]
+      | .forward f =>
+        let names := ["Forwarded", "X-Forwarded-Host", "X-Forwarded-Port", "X-Forwarded-Prefix", "X-Forwarded-Proto", "X-Real-Ip"]
+        let fwd := names.filterMap fun n =>
+          let v := C08.get1 n.toList f.headers
+          if v.isEmpty then none else some (n, Json.str (String.ofList v))
+        Json.mkObj [("cls", "forward"), ("status", if f.via == .ws then (101 : Int) else 200), ("location", nul), ("body", nul),
+          ("up", Json.mkObj [("method", f.method), ("uri", jb f.url.requestURI), ("host", String.ofList f.host), ("fwd", Json.mkObj fwd)])]
+    let skipped := table.any fun kv => kv.2.any fun ro => ro.targets.any fun tg => ServeHTTP.skipFor cfg r tg
+    let gated := decoded.any fun d => d.2.2.2.2.any fun kv => ["allow", "deny", "auth", "redirect"].contains kv.1
+    let tag := out.cls ++ (match out with | .forward f => if f.via == .ws then "+ws" else "" | _ => "") ++
+      (if skipped then "+selfredirect" else "")
+    return ({ model := m, agree := m == canonImpl, spec := spec,
+              nontrivial := decoded.length > 1 || gated || out.cls != "forward", tag := tag } : Verdict).toJson
+
 def streams : List (String × Handler) :=
-  [("c07.url", urlH), ("c07.body", bodyH), ("c07.noroute", norouteH), ("c07.escape", escapeH)]
+  [("c07.url", urlH), ("c07.body", bodyH), ("c07.noroute", norouteH), ("c07.escape", escapeH),
+   ("c07.serve", serveH)]
 end Fabio.Driver.C07
